@@ -163,6 +163,8 @@ class ExactDiag:
         mpo = self.model.H_MPO
         full_H = mpo.get_W(0).take_slice(mpo.get_IdL(0), 'wL')
         full_H.ireplace_labels(['p', 'p*'], [self._labels_p[0], self._labels_pconj[0]])
+        if mpo.L == 1:  # the loop below doesn't get to project the right leg
+            full_H = full_H.take_slice(mpo.get_IdR(0), 'wR')
         for i in range(1, mpo.L):
             W = mpo.get_W(i, copy=True)
             W.ireplace_labels(['p', 'p*'], [self._labels_p[i], self._labels_pconj[i]])
